@@ -8,7 +8,7 @@ BOUNDS = {
     'thorough': [('dfs', 'reopen', ops.CFG12, 3, 2), ('dfs', 'reopen', ops.CFG_MULTI[2:4], 4, 2), ('reopen', ops.CFG12, 2), ('reopen', ops.CFG_MULTI[2:4], 3)],
 }
 
-_std.install(globals(), 'C02', 'model_checking', [master.oracle_roundtrip], BOUNDS,
+_std.install(globals(), 'C02', 'model_checking', [master.oracle_roundtrip, master.oracle_live], BOUNDS,
              ['reference model carried across REOPEN (zero-length contents lose their link association, as documented at rm_file)',
               'foreign-image corpus of the quantifier is not vendored (Git-LFS pointers only): only images the library produces are explored',
               'REOPEN = write_fp to memory, open_fp of the bytes in a fresh PyCdlib object'])
